@@ -245,7 +245,7 @@ func (f *frame) binop(x *ssa.BinOp, reach string) Val {
 		case token.SUB:
 			return Val{c.wrap(sub(a[0], b[0]), x.Type())}
 		case token.MUL:
-			return Val{c.wrap(mul(a[0], b[0]), x.Type())}
+			return Val{c.wrap(c.mulTerm(a[0], b[0]), x.Type())}
 		case token.QUO:
 			f.guard(reach, neq(b[0], "0"), "integer divide by zero", x)
 			return Val{c.wrap(goQuo(a[0], b[0], uns), x.Type())}
@@ -383,7 +383,13 @@ func (c *Ctx) cmpEqual(f *frame, xv, yv ssa.Value, a, b Val, t types.Type) strin
 	}
 	if it, ok := t.Underlying().(*types.Interface); ok {
 		_ = it
-		// interface vs interface; or iface vs concrete handled by ssa MakeInterface
+		// comparison with the nil interface: the tag decides (tag == 0 implies payload == 0)
+		if k, ok := yv.(*ssa.Const); ok && k.Value == nil && len(a) == 2 {
+			return eq(a[0], "0")
+		}
+		if k, ok := xv.(*ssa.Const); ok && k.Value == nil && len(b) == 2 {
+			return eq(b[0], "0")
+		}
 		if len(a) == 2 && len(b) == 2 {
 			return and(eq(a[0], b[0]), eq(a[1], b[1]))
 		}
@@ -880,3 +886,33 @@ func (f *frame) havocAll(st State, reach, tag string) State {
 }
 
 var _ = fmt.Sprintf
+
+// mulTerm: product of two integer terms. Products of two symbolic terms are abstracted by an
+// uninterpreted function (with commutativity and unit/zero instances) unless the contract
+// asks for nonlinear arithmetic; this keeps queries in linear arithmetic + UF.
+func (c *Ctx) mulTerm(a, b string) string {
+	if _, ok := litBig(a); ok {
+		return mul(a, b)
+	}
+	if _, ok := litBig(b); ok {
+		return mul(a, b)
+	}
+	if c.nonlinear {
+		return mul(a, b)
+	}
+	fn := c.uf("mulu", []string{"Int", "Int"}, "Int")
+	key := a + "*" + b
+	if r, ok := c.mulMemo[key]; ok {
+		return r
+	}
+	ab := c.bind("mu", "Int", a)
+	bb := c.bind("mu", "Int", b)
+	r := app(fn, ab, bb)
+	c.asserts = append(c.asserts, and(eq(r, app(fn, bb, ab)),
+		implies(eq(ab, "0"), eq(r, "0")), implies(eq(bb, "0"), eq(r, "0")),
+		implies(eq(ab, "1"), eq(r, bb)), implies(eq(bb, "1"), eq(r, ab)),
+		implies(and(ge(ab, "0"), ge(bb, "0")), ge(r, "0")),
+		implies(and(ge(ab, "1"), ge(bb, "1")), and(ge(r, ab), ge(r, bb)))))
+	c.mulMemo[key] = r
+	return r
+}
